@@ -262,11 +262,7 @@ func TestVerifC16Tunnel(t *testing.T) {
 		leaked := snap.Leaked(scope, nil, 3*time.Second)
 		if len(leaked) > 0 {
 			sum := vk.FrameSummary(leaked)
-			top := "?"
-			if len(sum) > 0 {
-				top = sum[0]
-			}
-			run.Violation("C16:tunnel|goroutine-left|"+c16LeakFn(top), map[string]any{"batch_start": done, "leaked": len(leaked), "frames": sum, "stack": leaked[0].Stack})
+			run.Violation("C16:tunnel|goroutine-left|"+c16LeakFn(leaked[0]), map[string]any{"batch_start": done, "leaked": len(leaked), "frames": sum, "stack": leaked[0].Stack})
 			run.Count("leak_violations", 1) // after 3 the test stops: every further trial would wait the full poll interval
 		}
 		run.Count("leak_checks", 1)
@@ -334,10 +330,17 @@ func c16JudgeTunnel(run *vk.Run, tr *c16Trial, when string) {
 	}
 }
 
-// c16LeakFn strips the (varying) goroutine state from a vk.FrameSummary entry.
-func c16LeakFn(s string) string {
-	if i := strings.Index(s, "tunnox-core/"); i >= 0 {
-		return s[i:]
+// c16LeakFn names a leaked goroutine by its entry function (outermost tunnox-core
+// frame): stable across the states/inner frames the goroutine happens to be in.
+func c16LeakFn(g vk.Goroutine) string {
+	fn := "?"
+	for _, l := range strings.Split(g.Stack, "\n") {
+		if strings.HasPrefix(l, "tunnox-core/") {
+			fn = l
+			if i := strings.LastIndex(fn, "("); i > 0 {
+				fn = fn[:i]
+			}
+		}
 	}
-	return s
+	return fn
 }
